@@ -110,6 +110,13 @@ func (a *Addr) keyTerms() []*Term {
 }
 
 func (ex *executor) load(st *state, a *Addr) Value {
+	if a.Kind == "global" && len(a.Path) == 0 {
+		if id, ok := ex.eng.constErr[a.Glob]; ok {
+			p := IntC(id)
+			AddFact(p, App("spec:plainErr#0", BoolSort, IntC(errStringTag), p))
+			return Value{T: a.Root, C: []*Term{IntC(errStringTag), p}}
+		}
+	}
 	if a.Kind == "cell" {
 		v, ok := st.cells[a.Cell]
 		if !ok {
@@ -885,6 +892,9 @@ func (ex *executor) execSlice(st *state, t *ssa.Slice) {
 }
 
 // ---------- interfaces ----------
+
+// dynamic type tag shared by all errors.New values
+const errStringTag = 999999
 
 func (eng *Engine) typeID(t types.Type) *Term {
 	k := typeKey(t)
